@@ -10,6 +10,8 @@ list, every history of watch / unwatch / patch operations.
 import GeckoModel.Model.Struct
 import GeckoModel.Proofs.AccessorFrame
 import GeckoModel.Properties.C18
+import GeckoModel.Model.Coop
+import GeckoModel.Generated.Skeletons
 
 namespace GeckoModel.C03
 open GeckoModel GeckoModel.Generated
@@ -222,5 +224,20 @@ def exItem : Item := ⟨"B", "B", 10, .bool, 1, some 3, 1, [], false, none, some
 def exState : StructState := (((⟨List.replicate 1024 0, [exItem], []⟩ : StructState).watch "B" 7).watch "B" 7)
 example : (exState.replaceAndNotify 10 [0x01]).2.length = 0 := by decide +kernel
 example : ((exState.replaceAndNotify 10 [0x08]).2.map (·.observer)) = [7] := by decide +kernel
+
+/-- what a synchronous method / coroutine writes into its own object and which of its own methods or attributes it calls -/
+private def stateOf (sk : Coop.Sk) : List String × List String :=
+  (Coop.selfStateWritten sk, (Coop.actions .call sk).filter Coop.isSelfState)
+
+/-- **notification keeps no memory** (state inventory over the regenerated skeletons): an accessor's `status_block_changed` and
+its value decoders write NO attribute (old and new value are decoded from the two blocks every time - no cached value can go stale
+when another item, e.g. the unit, changes), and both structures' `replace_status_block_segment` write only the block -/
+theorem notification_state_inventory :
+    stateOf Skeletons.sk_driver_accessor__GeckoStructAccessor_status_block_changed = ([], ["self._get_value", "self._on_change"]) ∧
+    stateOf Skeletons.sk_driver_accessor__GeckoStructAccessor__get_value = ([], ["self._get_raw_value"]) ∧
+    stateOf Skeletons.sk_driver_accessor__GeckoTempStructAccessor__get_value = ([], []) ∧
+    stateOf Skeletons.sk_driver_spastruct__GeckoStructure_replace_status_block_segment = (["self._status_block"], ["self.accessors.values"]) ∧
+    stateOf Skeletons.sk_driver_async_spastruct__GeckoAsyncStructure_replace_status_block_segment = (["self._status_block"], ["self.accessors.values"]) := by
+  decide +kernel
 
 end GeckoModel.C03
